@@ -10,7 +10,9 @@ import (
 	"os/exec"
 	"runtime"
 	"sync"
+	"syscall"
 
+	"github.com/bufbuild/buf/private/pkg/osext"
 	"github.com/bufbuild/bufverif/internal/bufx"
 	"github.com/bufbuild/bufverif/internal/evid"
 )
@@ -36,6 +38,15 @@ type cliResponse struct {
 	Exit   int    `json:"exit"`
 	Stdout []byte `json:"stdout,omitempty"`
 	Stderr []byte `json:"stderr,omitempty"`
+	CPUms  int64  `json:"cpu_ms"`
+}
+
+func cpuNow() int64 {
+	var ru syscall.Rusage
+	if syscall.Getrusage(syscall.RUSAGE_SELF, &ru) != nil {
+		return 0
+	}
+	return (ru.Utime.Sec+ru.Stime.Sec)*1000 + int64(ru.Utime.Usec+ru.Stime.Usec)/1000
 }
 
 // cliWorker is the subprocess entry point: JSON requests on stdin, JSON responses on stdout.
@@ -53,11 +64,14 @@ func cliWorker(_ []string) int {
 			return 3
 		}
 		var resp cliResponse
-		if err := os.Chdir(req.Cwd); err != nil {
+		t0 := cpuNow()
+		// osext.Chdir, not os.Chdir: buf caches its working directory (osext.Getwd)
+		if err := osext.Chdir(req.Cwd); err != nil {
 			resp = cliResponse{Exit: -4, Stderr: []byte("chdir: " + err.Error())}
 		} else {
 			resp = runOne(ctx, req)
 		}
+		resp.CPUms = cpuNow() - t0
 		if err := enc.Encode(&resp); err != nil {
 			return 3
 		}
@@ -94,6 +108,8 @@ type cliPool struct {
 	all   []*cliProc
 	died  int
 	calls int64
+	cpuMS map[string]int64
+	nCmd  map[string]int64
 }
 
 func newCLIPool(n int) (*cliPool, error) {
@@ -101,7 +117,7 @@ func newCLIPool(n int) (*cliPool, error) {
 	if err != nil {
 		return nil, err
 	}
-	p := &cliPool{self: self, free: make(chan *cliProc, n)}
+	p := &cliPool{self: self, free: make(chan *cliProc, n), cpuMS: map[string]int64{}, nCmd: map[string]int64{}}
 	for i := 0; i < n; i++ {
 		w, err := p.spawn()
 		if err != nil {
@@ -170,5 +186,11 @@ func (p *cliPool) run(cwd string, args ...string) bufx.CLIResult {
 		return bufx.CLIResult{ExitCode: -3, Stderr: "worker process died: " + err.Error()}
 	}
 	p.free <- w
+	if len(args) > 0 {
+		p.mu.Lock()
+		p.cpuMS[args[0]] += resp.CPUms
+		p.nCmd[args[0]]++
+		p.mu.Unlock()
+	}
 	return bufx.CLIResult{ExitCode: resp.Exit, Stdout: string(resp.Stdout), Stderr: string(resp.Stderr)}
 }
